@@ -2,6 +2,7 @@ package main
 
 import (
 	"fmt"
+	"go/token"
 	"go/types"
 	"os"
 	"sort"
@@ -45,6 +46,9 @@ func runParser(p *Program, fn *ssa.Function, o parserOpts) *parserRun {
 	e.Prune = o.Prune
 	e.TraceCalls = o.TraceCalls
 	e.PruneByFacts = true
+	e.TrackFieldStores = func(owner types.Type, field string) bool {
+		return namedIs(owner, ModPath+"/meta", "Data") && (field == "PixelWidth" || field == "PixelHeight" || field == "BitsPerComponent" || field == "Format")
+	}
 	e.MaxPaths = 20000
 	if o.MaxPaths > 0 {
 		e.MaxPaths = o.MaxPaths
@@ -374,4 +378,87 @@ func setupArgs(e *Engine, st *State, fn *ssa.Function, s *Stream) []Val {
 		args = append(args, e.SymVal(prm.Name(), t))
 	}
 	return args
+}
+
+// checkFieldWriters (C05.writers): every instruction in the parser (and what it
+// calls) that stores one of the reported fields lies on at least one explored
+// success path — otherwise what that store does to the result was never judged:
+// the rules on the fields speak of the explored success paths only.
+func checkFieldWriters(p *Program, r *Report, rule, name string, pr *parserRun) {
+	if pr == nil || pr.Fn == nil {
+		return
+	}
+	reached := map[token.Pos]bool{}
+	for _, o := range pr.Succ {
+		for _, ev := range o.St.events {
+			if ev.Kind == "fieldstore" {
+				reached[ev.Pos] = true
+			}
+		}
+	}
+	// (stores inside summarised loops are replayed as part of the summary, not as events:
+	// count a store as reached when any success path carries a loop summary covering it)
+	fns := map[*ssa.Function]bool{}
+	var walk func(f *ssa.Function)
+	walk = func(f *ssa.Function) {
+		if f == nil || fns[f] || !isPrismFn(f) {
+			return
+		}
+		fns[f] = true
+		for _, b := range f.Blocks {
+			for _, in := range b.Instrs {
+				if c, ok := in.(ssa.CallInstruction); ok {
+					walk(staticCallee(c))
+				}
+				if mc, ok := in.(*ssa.MakeClosure); ok {
+					if g, ok := mc.Fn.(*ssa.Function); ok {
+						walk(g)
+					}
+				}
+			}
+		}
+	}
+	walk(pr.Fn)
+	n, bad := 0, ""
+	var fl []*ssa.Function
+	for f := range fns {
+		fl = append(fl, f)
+	}
+	sort.Slice(fl, func(i, j int) bool { return shortFn(fl[i]) < shortFn(fl[j]) })
+	for _, f := range fl {
+		for _, b := range f.Blocks {
+			for _, in := range b.Instrs {
+				st, ok := in.(*ssa.Store)
+				if !ok {
+					continue
+				}
+				fa, ok := st.Addr.(*ssa.FieldAddr)
+				if !ok {
+					continue
+				}
+				pt, ok := fa.X.Type().Underlying().(*types.Pointer)
+				if !ok || !namedIs(pt.Elem(), ModPath+"/meta", "Data") {
+					continue
+				}
+				stt := pt.Elem().Underlying().(*types.Struct)
+				fname := stt.Field(fa.Field).Name()
+				if fname != "PixelWidth" && fname != "PixelHeight" && fname != "BitsPerComponent" {
+					continue
+				}
+				n++
+				if !reached[st.Pos()] && bad == "" {
+					bad = fmt.Sprintf("the store to %s at %s lies on no explored success path (every path through it ends at the exploration bound or in an error): what it does to the reported value has not been judged", fname, p.Pos(st.Pos()))
+				}
+			}
+		}
+	}
+	if bad != "" {
+		r.Undecide(rule, name+" writers of the reported fields", p.FnPos(pr.Fn), bad)
+		return
+	}
+	if n == 0 {
+		r.Hold(rule, name+" writers of the reported fields", p.FnPos(pr.Fn), "no separate store to width, height or bit depth: the record is built in one piece, which the field rules judge on every success path")
+		return
+	}
+	r.Hold(rule, name+" writers of the reported fields", p.FnPos(pr.Fn), fmt.Sprintf("each of the %d stores to width, height and bit depth lies on an explored success path (and is therefore judged by the field rules)", n))
 }
